@@ -52,6 +52,7 @@ def check_curve(ctx, params, grid, mean, kappa, et, inp):
     ob = "compute_recession_curve = model riseCurve at Float on the recorded quad values"
     g = np.array(grid, dtype=float)
     with sim.record_quad() as calls:
+        sim.dirty_heap(ctx.rng, len(g))
         t = [float(v) for v in srm.compute_recession_curve(sy, Td, g, mean, kappa, et)]
     cells = [c for c in calls if any(c[0] == a and c[1] == b for a, b in zip(grid, grid[1:]))]
     m = ctx.driver.call("curve.f", {"grid": [f2h(x) for x in grid], "cells": [f2h(c[2]) for c in cells], "mean": f2h(mean)})
